@@ -548,15 +548,17 @@ inductive NodeOK (E : Env) : Node → Prop where
   | q (l : Layer) (spec : LSpec) (hf : E.findL l.cls = some spec)
       (ht : E.customObjects.contains l.cls = true) (hb : (l.cls == "QBidirectional") = false)
       (hok : LayerOK E spec l) : NodeOK E (.q l)
-  | keras (c : String) (cfg : Cfg) (h : E.isLibraryClass c = false) : NodeOK E (.keras c cfg)
+  | keras (c : String) (cfg : Cfg) (h : E.isLibraryClass c = false)
+      -- no identifier string of the stock layer's config is a key of the custom-object table
+      (hs : kerasNodeCfg E cfg = cfg) : NodeOK E (.keras c cfg)
 
 theorem node_roundtrip (E : Env) (n : Node) (h : NodeOK E n) :
     ∃ n', nodeFromConfig E ⟨(nodeGetConfig E n).1, (nodeGetConfig E n).2, []⟩ = .ok n' ∧
       nodeView E n' = nodeView E n := by
   cases h with
-  | keras c cfg h =>
+  | keras c cfg h hs =>
     refine ⟨.keras c cfg, ?_, rfl⟩
-    simp [nodeFromConfig, nodeGetConfig, h]
+    simp [nodeFromConfig, nodeGetConfig, h, hs]
   | q l spec hf ht hb hok =>
     obtain ⟨L', hL', hcls, hkw, hread⟩ := layer_roundtrip E spec l hok
     refine ⟨.q L', ?_, ?_⟩
@@ -860,5 +862,127 @@ theorem rebuild_of_raise (E : Env) (m : Model) (h : modelGetConfigRaises E m = t
     rebuild E m = .error .attributeError := by
   unfold rebuild
   simp [h]
+
+/-! ### stock Keras layers inside the custom-object scope -/
+
+theorem resolveName_id (E : Env) (v : PyVal)
+    (h : ∀ s, v = .str s → E.customObjects.contains s = false) : resolveName E v = v := by
+  cases v <;> try rfl
+  case str s =>
+    have hh := h s rfl
+    simp only [resolveName, hh, Bool.false_eq_true, if_false]
+
+/-- a stock layer's config keeps its meaning when none of its identifier strings is a table key -/
+theorem kerasNodeCfg_id (E : Env) (cfg : Cfg)
+    (h : ∀ kv ∈ cfg, identifierKeys.contains kv.1 = true →
+      ∀ s, kv.2 = .str s → E.customObjects.contains s = false) : kerasNodeCfg E cfg = cfg := by
+  unfold kerasNodeCfg
+  conv_rhs => rw [← List.map_id cfg]
+  apply List.map_congr_left
+  intro kv hkv
+  by_cases hk : identifierKeys.contains kv.1 = true
+  · rw [if_pos hk, resolveName_id E kv.2 (h kv hkv hk)]
+    rfl
+  · rw [if_neg hk]
+    rfl
+
+/-! ### the constructor's normalisation is idempotent -/
+
+theorem lookup_alpha_map (l : Cfg) (t : Nat) (v : PyVal) (h : l.lookup "alpha" = some v) :
+    (l.map fun kv =>
+      if kv.1 == "alpha" then (kv.1, PyVal.str "auto_po2")
+      else if t == 2 && kv.1 == "symmetric" then (kv.1, PyVal.bool true)
+      else kv).lookup "alpha" = some (.str "auto_po2") := by
+  induction l with
+  | nil => simp at h
+  | cons x xs ih =>
+    obtain ⟨k, w⟩ := x
+    by_cases hk : k = "alpha"
+    · subst hk
+      simp [List.lookup_cons]
+    · have hne : ("alpha" == k) = false := by simpa using fun e => hk e.symm
+      have hne' : (k == "alpha") = false := by simpa using hk
+      simp only [List.lookup_cons, hne] at h
+      simp only [List.map_cons, hne']
+      by_cases hs : (t == 2 && k == "symmetric") = true
+      · simp only [hs, if_true, List.lookup_cons, hne, Bool.false_eq_true, if_false]
+        exact ih h
+      · simp only [hs, Bool.false_eq_true, if_false, List.lookup_cons, hne]
+        exact ih h
+
+/-- `_set_trainable_parameter()` twice = once (alpha None → 'auto_po2' is a one-way switch) -/
+theorem setTrainable_idem (s : QSpec) (q : QObj) :
+    setTrainable s (setTrainable s q) = setTrainable s q := by
+  cases ht : s.trainable with
+  | zero => simp [setTrainable, ht]
+  | succ n =>
+    cases hl : q.args.lookup "alpha" with
+    | none => simp [setTrainable, ht, hl]
+    | some v =>
+      cases v with
+      | none =>
+        have h1 : setTrainable s q = ⟨q.cls, q.args.map (fun kv =>
+            if kv.1 == "alpha" then (kv.1, PyVal.str "auto_po2")
+            else if (n + 1) == 2 && kv.1 == "symmetric" then (kv.1, PyVal.bool true)
+            else kv), q.native⟩ := by
+          simp only [setTrainable, ht, hl]
+        rw [h1]
+        have h2 := lookup_alpha_map q.args (n + 1) _ hl
+        simp only [setTrainable, ht, h2]
+      | bool _ => simp [setTrainable, ht, hl]
+      | num _ => simp [setTrainable, ht, hl]
+      | str _ => simp [setTrainable, ht, hl]
+      | list _ => simp [setTrainable, ht, hl]
+      | dict _ => simp [setTrainable, ht, hl]
+
+theorem setTrainable_cls (s : QSpec) (q : QObj) : (setTrainable s q).cls = q.cls := by
+  unfold setTrainable
+  split <;> rfl
+
+theorem normQ_idem (E : Env) (t : Bool) (a : Arg) : normQ E t (normQ E t a) = normQ E t a := by
+  cases a with
+  | q v =>
+    cases v with
+    | obj q =>
+      cases t with
+      | false => simp [normQ]
+      | true =>
+        cases hf : E.findQ q.cls with
+        | none => simp [normQ, hf]
+        | some s =>
+          have h1 : normQ E true (.q (.obj q)) = .q (.obj (setTrainable s q)) := by simp [normQ, hf]
+          rw [h1]
+          simp [normQ, setTrainable_cls, hf, setTrainable_idem]
+    | none => rfl
+    | str _ => rfl
+  | lit _ => rfl
+  | act _ => rfl
+  | constr _ => rfl
+  | init _ => rfl
+
+/-- what the constructor does to an argument by itself, done twice = once: the `normal` hypothesis
+    of `LayerOK` holds for every argument that a constructor produced -/
+theorem normLocal_idem (E : Env) (spec : LSpec) (k : Kind) (a : Arg) :
+    normLocal E spec k (normLocal E spec k a) = normLocal E spec k a := by
+  cases k with
+  | fixed v => simp [normLocal]
+  | quant t => simp only [normLocal]; exact normQ_idem E t a
+  | act =>
+    cases a with
+    | act x =>
+      cases x with
+      | none => by_cases h : spec.noneIsLinear = true <;> simp [normLocal, h]
+      | fn _ => rfl
+      | obj _ => rfl
+      | raw _ => rfl
+    | lit _ => rfl
+    | q _ => rfl
+    | constr _ => rfl
+    | init _ => rfl
+  | lit => cases a <;> rfl
+  | rawAct => cases a <;> rfl
+  | mask => cases a <;> rfl
+  | constr _ _ => cases a <;> rfl
+  | init _ _ _ => cases a <;> rfl
 
 end QKV.LC
